@@ -10,3 +10,33 @@ Theorem C04_start_consumes_acceptance : forall sc hc s id n snap s',
             /\ sy_starts s' = (id, n, snap) :: sy_starts s.
 Proof. exact start_requires_accept. Qed.
 Print Assumptions C04_start_consumes_acceptance.
+
+(* ---- over all reachable states of the repaired pipeline (Proofs/SysProofs.v): any interleaving of user
+   mutations, clock advances, injected faults, Step and Retry (driver discipline: Retry gets the error state
+   just returned; fresh ids) ---- *)
+From GK.Proofs Require Import SysProofs.
+
+(* a work function is invoked at most once per task *)
+Theorem C04_at_most_once : forall s, reachable s -> NoDup (map (fun x => fst (fst x)) (sy_starts s)).
+Proof. exact starts_nodup. Qed.
+Print Assumptions C04_at_most_once.
+
+(* only a task that is stored as dispatched (the scheduler moved it for this run), and never twice *)
+Theorem C04_only_dispatched : forall s id n snap s',
+  reachable s -> sstepf s (LWorkStart id n snap) = Some s' ->
+  t_state snap = Dispatched /\ lookup id (repo_of s) = Some snap /\ t_id snap = id /\ n = sy_now s
+  /\ ~ In id (start_ids s).
+Proof. exact start_dispatched. Qed.
+Print Assumptions C04_only_dispatched.
+
+(* a task whose cancellation succeeded is never run afterwards, whatever follows (Retry included) *)
+Theorem C04_never_after_cancel : forall s f n id s1 tr s2 n' snap,
+  reachable s -> sstepf s (LUser (HCancel f n id) ROk) = Some s1 ->
+  srun s1 tr = Some s2 -> srun_ok s1 tr -> sstepf s2 (LWorkStart id n' snap) = None.
+Proof. exact no_start_after_cancel. Qed.
+Print Assumptions C04_never_after_cancel.
+
+(* executable form: the predicate the check evaluates on the real pipeline holds of every accepted trace *)
+Theorem C04_predicate_holds : forall tr s, srun sys_init tr = Some s -> srun_ok sys_init tr -> c04_ok tr = true.
+Proof. exact c04_holds. Qed.
+Print Assumptions C04_predicate_holds.
